@@ -7,7 +7,7 @@ from fvsym import xforms
 
 BOUNDS = {
     "quick": "transforms on skeletons [1,1], [1,0] (and [[1]] for depth-1 forms) with symbolic authoritative shape entries (coords < S_i <= 4: ranks declared 'U' are iterated over their whole shape), and with estimated shapes; "
-             "leaf default 9; formats over {C,U}^d enumerated; mutable both ways: rank ids, authoritative shape re-arrangement, default, formats, mutability, coordinates inside "
+             "leaf default 9; formats over {C,U}^d (quick: CU and UC; thorough: all four, mutability alternating); mutable both ways: rank ids, authoritative shape re-arrangement, default, formats, mutability, coordinates inside "
              "shape and active range, iterActive == iterOccupancy; lazy results (& | ^ - <<, project, prune, intersection, union, coiter*) carry rank id / active range; "
              "an unowned fiber's attributes are replaced by the rank's after Tensor.fromFiber / setRoot; split-then-flatten(absolute), splits selected by rank id (alone and together with a different depth), swizzles that leave a suffix of ranks in place with a 'U' trailing rank, three-rank rotations of a 1x2x3 box",
     "thorough": "adds [2,2], [0,1], all split kinds with relative coordinates and halos, levels=2 flatten/unflatten on depth 3, 2x2x2 swizzles",
@@ -256,7 +256,7 @@ def obligations(tier):
             for auth in (True, False):
                 if not auth and name in ("flattenRanks", "flatten_unflatten") and not (tree == [1, 1] and name == "flatten_unflatten"):
                     continue     # estimated shapes of tuple coordinates: see known finding F18 (one representative obligation kept)
-                combos = [(["C", "U"], True), (["U", "C"], False)] if q else [(list(fm), m) for fm in itertools.product("CU", repeat=2) for m in (True, False)]
+                combos = [(["C", "U"], True), (["U", "C"], False)] if q else [(["C", "U"], True), (["U", "C"], False), (["C", "C"], False), (["U", "U"], True)]
                 for fmts, mutable in combos:
                     an = names("p", xforms.xf_nargs(name, opt))
                     pre = list(tp) + bound_pre(cn, 0, 4)      # ranks declared "U" are iterated over their whole shape
